@@ -992,6 +992,14 @@ struct FGen {
     unsigned k = (unsigned)r.below(100);
     const RefInfo &p = any_ref();
     Stmt s;
+    if (r.chance(1, 12)) { // tag analysis: add_tag(rgn, ref, TAG)
+      Stmt t = mk(Op::INTRINSIC);
+      t.k = "add_tag";
+      t.v = {regions[p.home].name, p.name};
+      t.n = {mpz_class((long)r.range(1, 4))};
+      b.stmts.push_back(t);
+      return;
+    }
     if (k < 14) { // allocation, usually initialised right away
       b.stmts.push_back(mk_make_ref(p));
       if (r.chance(3, 4) && mk_store(p, s))
